@@ -4,6 +4,16 @@
 //! and core parts of the `metrics` ecosystem, they can be beneficial for in-process collecting of
 //! metrics in some limited cases.
 
+#[cfg(metrics_verif)]
+use metrics::__verif::sync::Mutex;
+#[cfg(metrics_verif)]
+use std::{
+    collections::HashMap,
+    fmt::Debug,
+    hash::Hash,
+    sync::{atomic::Ordering, Arc},
+};
+#[cfg(not(metrics_verif))]
 use std::{
     collections::HashMap,
     fmt::Debug,
